@@ -886,6 +886,9 @@ func (g *gen) genLeaf(f *hframe, bad bool) clause {
 				if col.typ == "e" && len(col.vals) > 0 && r.P(2, 3) {
 					vs[i] = col.vals[r.Intn(len(col.vals))]
 				}
+				if i == 0 && col.typ == "s" && r.P(1, 3) {
+					vs[i] = "" // the empty string is a value, not the null
+				}
 				toks = append(toks, tx.HexS(vs[i]))
 			}
 			fl.Arg = vs
@@ -911,6 +914,9 @@ func (g *gen) genLeaf(f *hframe, bad bool) clause {
 		}
 	case kind == 7 || kind == 8: // column argument
 		want := map[string]string{"i": "if", "f": "if", "b": "b", "s": "s", "e": "e"}[col.typ]
+		if col.typ == "i" && len(f.colsOf("f")) > 0 && r.Bool() {
+			want = "f" // an int column against a float column: the int column is promoted for the comparison
+		}
 		ac, ok := argCol(want)
 		if !ok {
 			ac = col
@@ -1339,6 +1345,12 @@ func (g *gen) genInstr(f *hframe, cols []colInfo, bad bool, written map[string]b
 			}
 		}
 		e := cands[r.Intn(len(cands))]
+		if (c.typ == "s" || c.typ == "e") && r.P(1, 3) {
+			e = cands[len(cands)-1] // s.coalesce: the one function that answers two nulls with a value
+			if r.Bool() {
+				c2 = c // the same column twice: both arguments are null in the same rows
+			}
+		}
 		in.SrcCol1, in.SrcCol2 = c.name, c2.name
 		in.Fn = e.fn
 		toks = append(toks, tx.HexS(c.name), tx.HexS(c2.name), "f2", e.id)
